@@ -393,6 +393,7 @@ def builtin (f : Name) (args : List (V ω)) (kw : List (Name × V ω)) : Option 
       else if t = tInt then some (.ok (.bool (match v with | .int _ => true | .bool _ => true | _ => false)))
       else if t = tBytes then some (.ok (.bool (match v with | .bytes _ => true | _ => false)))
       else some (raiseX xUnsupported)
+    | [_, .host _], [] => Option.none           -- a type (or tuple of types) that is a host object: the host decides
     | _, _ => some (raiseX xUnsupported)
   else if f = fInt then
     match args, kw with
